@@ -323,6 +323,30 @@ def F17():
     return ["input list %r over graph links %r" % (s._g.attrs["pnames"][2], sorted(s._g.edge_list()))]
 
 
+def F18():
+    """C03: an ILoad seeds the solver with its nominal current in every phase -> false 'Unstable system'"""
+    s = System("t", Source("S", vo=5.0))
+    s.add_comp("S", comp=RLoss("R", rs=10.0))
+    s.add_comp("R", comp=ILoad("L", ii=1.0))
+    s.set_sys_phases({"a": 1, "b": 1})
+    s.set_comp_phases("L", {"a": 0.001, "b": 0.002})
+    try:
+        s.solve()
+    except ValueError as e:
+        return ["solve() raised %s although the steady state drops 10-20 mV" % e]
+    return []
+
+
+def F19():
+    """C03: numpy's default absolute tolerance hides currents below 1e-8 A: an intermediate iterate is returned"""
+    s = System("t", Source("S", vo=1.0))
+    s.add_comp("S", comp=RLoss("R", rs=1.0))
+    s.add_comp("R", comp=PLoad("L", pwr=5e-9))
+    df = s.solve()
+    i = dict(zip(df["Component"], df["Iin (A)"]))
+    return [] if abs(i["S"] - i["L"]) <= 1e-6 * i["L"] else ["load draws %g A but its source delivers %g A" % (i["L"], i["S"])]
+
+
 ALL = {k: v for k, v in globals().items() if k[0] == "F" and k[1:].isdigit()}
 if __name__ == "__main__":
     rc = 0
